@@ -263,7 +263,7 @@ def rat_is_zero(a, rel=None):
     return n.is_zero()
 
 
-IDENTITY_CALLS = {'copy', 'array', 'asarray', 'atleast_1d', 'ravel', 'float',
+IDENTITY_CALLS = {'copy', 'array', 'asarray', 'atleast_1d', 'ravel', 'float', 'int',
                   'astype', 'squeeze', 'flatten', 'real', 'item'}
 
 
@@ -662,6 +662,12 @@ class Ev:
             return tuple(self.ev(x) for x in e.elts)
         if isinstance(e, ast.Call):
             return self.call(e)
+        if isinstance(e, ast.Compare):
+            if self.choose is not None:
+                c = self.choose(e, self)
+                if c is not None:
+                    return ONE if c else ZERO
+            raise Inconclusive('comparison as a value ' + unparse(e))
         if isinstance(e, ast.IfExp):
             if self.choose is not None:
                 c = self.choose(e.test, self)
